@@ -1,14 +1,12 @@
 (* C22 correspondence for the reduced model: histories observed on the real
-   Committee (first voting period: CRC votes, vote cancellations by spending,
-   unregistrations), cell values after every block and after RollbackTo every
-   height, compared with the model by vm_compute.  Executable, no proofs. *)
+   Committee, cell values after every entry and after RollbackTo every height,
+   compared with the model by vm_compute; the discipline check [goodb] must
+   hold on every observed history.  Executable, no proofs. *)
 From Coq Require Import ZArith Bool List.
 From ELA Require Import lib.History model.C22_CrState.
 Import ListNotations.
 Local Open Scope Z_scope.
 
-(* initial cells; blocks with the cells observed after each; (k, cells) observed
-   after RollbackTo k from the end *)
 Inductive case :=
 | CHist (id : N) (s0 : list (Z * Z)) (blocks : list ((Z * list tx) * list (Z * Z)))
         (rollbacks : list (Z * list (Z * Z))).
@@ -27,7 +25,7 @@ Definition check (c : case) : option N :=
   | CHist id s0 blocks rbs =>
       let bs := map fst blocks in
       let '(log, s) := process s0 bs in
-      if forward s0 blocks &&
+      if forward s0 blocks && goodb s0 bs &&
          forallb (fun ko => cells_ok (rollback_to (fst ko) log s) (snd ko) &&
                             cells_ok (direct (fst ko) s0 bs) (snd ko)) rbs
       then None else Some id
